@@ -333,3 +333,1122 @@ def r06a_cache_attr(chk, repo, api: CacheApi) -> None:
     vals = expand(api.store.value, fw, api.store)
     chk.require(bool(vals) and len(wp) == len(rp) + 1 and all(isinstance(v.expr, ast.arg) and v.expr.arg == wp[-1] and not v.path for v in vals), "R06a", api.store,
                 "the stored cache value is not the match handed to put_parse_cache", detail="stored value is the match parameter")
+
+
+TOKEN_ATTRS = ("raw", "raw_upper", "class_types", "instance_types", "type")
+TOKEN_CALLS = ("get_type",)
+
+
+class KeyFacts:
+    """Which facts the components of a cache key carry, relative to one ``R.match(S, I, ..)``."""
+
+    def __init__(self, frame: Frame, match_call: ast.Call):
+        st = frame.cfg.stmt_of(match_call)
+        self.R = (match_call.func.value, frame, st)
+        self.S = (match_call.args[0], frame, st)
+        self.I = (match_call.args[1], frame, st)
+
+    def is_token(self, e: ast.AST, frame: Frame, at) -> bool:
+        ls = expand(e, frame, at)
+        return bool(ls) and all(
+            isinstance(x.expr, ast.Subscript) and not x.path
+            and same_value((x.expr.value, x.frame, x.at), self.S) and same_value((x.expr.slice, x.frame, x.at), self.I)
+            for x in ls
+        )
+
+    def of(self, lf: Leaf) -> Set[str]:
+        e = lf.expr
+        out: Set[str] = set()
+        if lf.path or isinstance(e, (ast.arg, _Opaque)):
+            return out
+        if isinstance(e, ast.Attribute):
+            if e.attr in TOKEN_ATTRS and self.is_token(e.value, lf.frame, lf.at):
+                out.add("token")
+            if e.attr in ("working_loc", "working_line_no", "working_line_pos"):
+                bases = expand(e.value, lf.frame, lf.at)
+                if bases and all(isinstance(b.expr, ast.Attribute) and b.expr.attr == "pos_marker" and not b.path and self.is_token(b.expr.value, b.frame, b.at) for b in bases):
+                    out.add({"working_loc": "position", "working_line_no": "line", "working_line_pos": "column"}[e.attr])
+        elif isinstance(e, ast.Call):
+            if isinstance(e.func, ast.Attribute) and not e.args and not e.keywords:
+                if e.func.attr in TOKEN_CALLS and self.is_token(e.func.value, lf.frame, lf.at):
+                    out.add("token")
+                if e.func.attr == "cache_key" and same_value((e.func.value, lf.frame, lf.at), self.R):
+                    out.add("matcher")
+            if call_name(e) == "len" and len(e.args) == 1 and same_value((e.args[0], lf.frame, lf.at), self.S):
+                out.add("length")
+        return out
+
+    def facts(self, alt: List[Leaf]) -> Set[str]:
+        out: Set[str] = set()
+        for lf in alt:
+            out |= self.of(lf)
+        if {"line", "column"} <= out:
+            out.add("position")
+        return out
+
+
+FACT_TEXT = {
+    "position": ("token position", "the working position of segments[idx] (pos_marker.working_loc): matches made at one place are replayed at another"),
+    "token": ("token discriminator", "the raw or the type of segments[idx]: a zero-width placeholder/meta and the token that follows it share one position"),
+    "length": ("visible length", "len(segments): a match made on a longer view of the tokens is replayed after the tail was trimmed off (or the other way round)"),
+    "matcher": ("matcher key", "<matcher>.cache_key() of the matcher being matched: the result of one alternative is replayed for another"),
+}
+
+
+def r06a_call_sites(chk, repo, api: CacheApi) -> None:
+    rname, wname = api.reader.name, api.writer.name
+    n_key = len(_self_params(api.reader))
+    by_func: Dict[int, dict] = {}
+    for m in repo.modules.values():
+        if rname not in m.text and wname not in m.text:
+            continue
+        for q, f in m.functions():
+            for c in calls_in(f):
+                if isinstance(c.func, ast.Attribute) and c.func.attr in (rname, wname):
+                    by_func.setdefault(id(f), {"f": f, "calls": []})["calls"].append(c)
+    for ent in by_func.values():
+        f = ent["f"]
+        if enclosing_class(f) is api.cls:
+            continue
+        frame = Frame(f)
+        puts = [c for c in ent["calls"] if c.func.attr == wname]
+        checks = [c for c in ent["calls"] if c.func.attr == rname]
+        triples: List[KeyFacts] = []
+        for p in puts:
+            chk.count("R06a.put_sites")
+            v = p.args[n_key] if len(p.args) > n_key else None
+            mcalls = []
+            if v is not None:
+                mcalls = [lf.expr for lf in expand(v, frame, frame.cfg.stmt_of(p))
+                          if isinstance(lf.expr, ast.Call) and last_attr(lf.expr) == "match" and isinstance(lf.expr.func, ast.Attribute) and len(lf.expr.args) >= 2 and not lf.path]
+            ok = bool(mcalls) and v is not None and len(mcalls) == len(expand(v, frame, frame.cfg.stmt_of(p)))
+            chk.require(ok, "R06a", p, "the value put into the parse cache is not (only) the result of <matcher>.match(segments, idx, ..) made in this function",
+                        detail="put value: result of the keyed match")
+            here = [KeyFacts(frame, mc) for mc in mcalls]
+            triples += here
+            _key_facts(chk, repo, frame, p, n_key, here, "put")
+        for c in checks:
+            chk.count("R06a.check_sites")
+            tr = triples
+            if not tr:
+                tr = [KeyFacts(frame, mc) for mc in calls_in(f) if last_attr(mc) == "match" and isinstance(mc.func, ast.Attribute) and len(mc.args) >= 3]
+            if not tr:
+                chk.fail("R06a", c, "a cached match is looked up in a function that performs no .match(segments, idx, ..) the look-up could stand for", detail="check: match it replaces")
+                continue
+            _key_facts(chk, repo, frame, c, n_key, tr, "check")
+    chk.floor("R06a.put_sites", 1)
+    chk.floor("R06a.check_sites", 1)
+
+
+def _key_facts(chk, repo, frame: Frame, call: ast.Call, n_key: int, triples: List[KeyFacts], role: str) -> None:
+    if len(call.args) < n_key or any(isinstance(a, ast.Starred) for a in call.args) or not triples:
+        chk.fail("R06a", call, f"cannot read the key arguments of the parse-cache {role} call", detail=f"{role} key: arguments")
+        return
+    st = frame.cfg.stmt_of(call)
+    alts: List[List[Leaf]] = [[]]
+    for a in call.args[:n_key]:
+        alts = [x + y for x in alts for y in flatten(repo, a, frame, st)][:24]
+    for fact, (label, why) in FACT_TEXT.items():
+        ok = all(any(fact in kf.facts(alt) for kf in triples) for alt in alts)
+        chk.require(ok, "R06a", call, f"the parse-cache key used at this {role} does not contain {why}", detail=f"{role} key: {label}")
+    if role == "put":
+        chk.sample({"rule": "R06a", "site": f"{module_of(call).relpath}:{call.lineno}", "key_components": [short(lf.expr, 50) for lf in alts[0] if isinstance(lf.expr, ast.AST) and not isinstance(lf.expr, _Opaque)],
+                    "facts": sorted(triples[0].facts(alts[0]))})
+
+
+class CtxCtors:
+    """Every expression in the tree that constructs a ParseContext (factories followed)."""
+
+    def __init__(self, repo, api: CacheApi):
+        self.repo = repo
+        self.api = api
+        self.factories: Dict[int, ast.AST] = {}  # functions whose return value is a fresh context
+        self.sites: List[ast.Call] = []
+        for _ in range(4):
+            before = len(self.factories)
+            self.sites = []
+            for m in repo.modules.values():
+                if "ParseContext" not in m.text and not any(f.name in m.text for f in self.factories.values()):
+                    continue
+                for c in (n for n in ast.walk(m.tree) if isinstance(n, ast.Call)):
+                    if self.is_ctor(c):
+                        self.sites.append(c)
+                        st = enclosing_stmt(c)
+                        f = enclosing_function(c)
+                        if isinstance(f, FuncNode) and self._returned(c, f):
+                            self.factories[id(f)] = f
+            if len(self.factories) == before:
+                break
+
+    def _returned(self, c: ast.Call, f) -> bool:
+        st = enclosing_stmt(c)
+        if isinstance(st, ast.Return) and st.value is c:
+            return True
+        if isinstance(st, (ast.Assign, ast.AnnAssign)) and st.value is c:
+            names = [t.id for t in _store_targets(st) if isinstance(t, ast.Name)]
+            fr = Frame(f)
+            for r in walk_local(f):
+                if isinstance(r, ast.Return) and isinstance(r.value, ast.Name) and r.value.id in names:
+                    if all(lf.expr is c for lf in expand(r.value, fr, r)):
+                        return True
+        return False
+
+    def is_ctor(self, c: ast.Call) -> bool:
+        m = module_of(c)
+        fn = c.func
+        if isinstance(fn, ast.Name):
+            if fn.id == "cls":
+                f = enclosing_function(c)
+                return enclosing_class(c) is self.api.cls and isinstance(f, FuncNode) and _params(f)[:1] == ["cls"]
+            r = self.repo.resolve_name(m, fn.id)
+            return bool(r) and (r[1] is self.api.cls or id(r[1]) in self.factories)
+        if isinstance(fn, ast.Attribute):
+            base = fn.value
+            if isinstance(base, ast.Name):
+                r = self.repo.resolve_name(m, base.id)
+                if r and r[1] is self.api.cls:
+                    meth = self.repo.lookup_method(r[0], r[1], fn.attr)
+                    return bool(meth) and id(meth[1]) in self.factories
+                if r and isinstance(r[1], ast.Module):
+                    r2 = self.repo.resolve_name(m, f"{base.id}.{fn.attr}")
+                    return bool(r2) and (r2[1] is self.api.cls or id(r2[1]) in self.factories)
+                if base.id in ("self", "cls"):
+                    c_ = enclosing_class(c)
+                    if c_ is not None:
+                        meth = self.repo.lookup_method(m, c_, fn.attr)
+                        return bool(meth) and id(meth[1]) in self.factories
+        return False
+
+
+def r06a_construction(chk, repo, api: CacheApi) -> CtxCtors:
+    ct = CtxCtors(repo, api)
+    for c in ct.sites:
+        chk.count("R06a.context_constructions")
+        f = enclosing_function(c)
+        st = enclosing_stmt(c)
+        where = qualname(f) if isinstance(f, FuncNode) else "<module or class body>"
+        d0 = f"context constructed in {where}"
+        if not isinstance(f, FuncNode):
+            chk.fail("R06a", c, "a ParseContext is constructed at import time / in a class body: it (and its match cache) lives for the whole process", detail=d0)
+            continue
+        memo = _is_memoised(f)
+        if memo:
+            chk.fail("R06a", c, f"{where} constructs a ParseContext and is memoised ({memo}): later parses receive the context, and the match cache, of an earlier one", detail=d0)
+            continue
+        stored = [t for t in _store_targets(st) if not isinstance(t, ast.Name)] if getattr(st, "value", None) is c or isinstance(st, ast.AugAssign) else []
+        locals_ = [t.id for t in _store_targets(st) if isinstance(t, ast.Name)] if getattr(st, "value", None) is c else []
+        declared = {n for g in walk_local(f) if isinstance(g, (ast.Global, ast.Nonlocal)) for n in g.names}
+        escapes = []
+        fr = Frame(f)
+        if locals_:
+            for s in walk_local(f):
+                if isinstance(s, (ast.Assign, ast.AnnAssign)) and s is not st and getattr(s, "value", None) is not None:
+                    if any(not isinstance(t, ast.Name) for t in _store_targets(s)):
+                        for nm in (x for x in ast.walk(s.value) if isinstance(x, ast.Name) and x.id in locals_):
+                            if any(lf.expr is c for lf in expand(nm, fr, s)):
+                                escapes.append(s)
+        bad = bool(stored) or bool(set(locals_) & declared) or bool(escapes)
+        chk.require(not bad, "R06a", c, f"the ParseContext constructed in {where} is stored beyond the call ({short((stored and st) or (escapes and escapes[0]) or st, 80)}): "
+                    "its match cache and hint uuid are then shared by every parse that reuses it", detail=d0)
+    chk.floor("R06a.context_constructions", 3)
+    # the context handed to the root parse is made in the calling function
+    for m in repo.iter_modules("src/sqlfluff/core/"):
+        if "root_parse" not in m.text:
+            continue
+        for q, f in m.functions():
+            for c in calls_in(f):
+                if last_attr(c) != "root_parse" or not isinstance(c.func, ast.Attribute):
+                    continue
+                chk.count("R06a.root_parse_calls")
+                a = next((k.value for k in c.keywords if k.arg == "parse_context"), None) or (c.args[1] if len(c.args) > 1 else None)
+                fr = Frame(f)
+                ls = expand(a, fr, fr.cfg.stmt_of(c)) if a is not None else []
+                ok = bool(ls) and all(isinstance(lf.expr, ast.Call) and lf.expr in ct.sites and not lf.path for lf in ls)
+                chk.require(ok, "R06a", c, f"the parse context given to root_parse in {q} is not (on every path) a ParseContext constructed in this call: "
+                            "a reused context replays cached matches of an earlier token sequence", detail=f"root_parse context fresh in {q}")
+    chk.floor("R06a.root_parse_calls", 1)
+    return ct
+
+
+# =====================================================================================
+# R06b  hint cache on grammar objects
+# =====================================================================================
+
+FRESH_ID_CALLS = ("uuid4", "uuid1", "get_next_id")
+
+
+def _is_dunder_dict(e, owner: str) -> bool:
+    return isinstance(e, ast.Attribute) and e.attr == "__dict__" and isinstance(e.value, ast.Name) and e.value.id == owner
+
+
+def r06b(chk, repo, api: CacheApi, ct: CtxCtors) -> Optional[ast.AST]:
+    chk.rule("R06b", "the per-grammar hint cache returns a stored hint only when the stored uuid equals parse_context.uuid, stores the hint with the uuid of the context it was "
+             "computed under, and ParseContext.uuid is fresh per instance and assigned in __init__ only")
+    deco = repo.fn(GBASE, "cached_method_for_parse_context")
+    inner = [n for n in deco.body if isinstance(n, FuncNode)]
+    ret = [n for n in deco.body if isinstance(n, ast.Return) and isinstance(n.value, ast.Name)]
+    wrapper = next((w for w in inner if ret and w.name == ret[-1].value.id), None)
+    if wrapper is None or not _params(deco):
+        raise AnalysisError("R06b: cached_method_for_parse_context no longer returns a nested wrapper function (anchor refactored)")
+    fparam = _params(deco)[0]
+    wp = _params(wrapper)
+    if len(wp) < 2:
+        raise AnalysisError("R06b: hint-cache wrapper lost its (self, parse_context) parameters")
+    me, pc = wp[0], wp[1]
+    cfg = cfg_of(wrapper)
+    fr = Frame(wrapper)
+
+    def is_pc_uuid(e) -> bool:
+        if not (isinstance(e, ast.Attribute) and e.attr == "uuid"):
+            return False
+        ls = expand(e.value, fr, cfg.stmt_of(e))
+        return bool(ls) and all(isinstance(x.expr, ast.arg) and x.expr.arg == pc for x in ls)
+
+    reads = [n for n in walk_local(wrapper) if (isinstance(n, ast.Subscript) and isinstance(n.ctx, ast.Load) and _is_dunder_dict(n.value, me))
+             or (isinstance(n, ast.Call) and ((last_attr(n) == "get" and isinstance(n.func, ast.Attribute) and _is_dunder_dict(n.func.value, me))
+                                               or (call_name(n) == "getattr" and n.args and isinstance(n.args[0], ast.Name) and n.args[0].id == me)))]
+    chk.count("R06b.slot_reads", len(reads))
+    chk.floor("R06b.slot_reads", 1)
+    read_ids = {id(r) for r in reads}
+    n_cached = 0
+    for r in walk_local(wrapper):
+        if not (isinstance(r, ast.Return) and r.value is not None):
+            continue
+        cn = cone(cfg, r.value, r)
+        if not any(id(x) in read_ids for x in cn):
+            continue
+        n_cached += 1
+        guarded = False
+        for e, pol in cfg.conditions(r):
+            if isinstance(e, ast.Compare) and len(e.ops) == 1 and ((isinstance(e.ops[0], ast.Eq) and pol) or (isinstance(e.ops[0], ast.NotEq) and not pol)):
+                sides = [e.left, e.comparators[0]]
+                for a, b in (sides, sides[::-1]):
+                    if is_pc_uuid(a) and any(id(x) in read_ids for x in cone(cfg, b, cfg.stmt_of(e))):
+                        guarded = True
+        chk.require(guarded, "R06b", r, "a hint stored on the grammar object is returned without comparing the stored uuid with parse_context.uuid: grammar objects are shared by "
+                    "all dialects and all parses of the process, so a hint computed for another dialect prunes alternatives of this one", detail="cached hint returned only under uuid equality")
+    chk.require(n_cached >= 1, "R06b", wrapper, "the wrapper never returns a stored hint (anchor of the rule gone)", detail="cached return present")
+    n_store = 0
+    for s in walk_local(wrapper):
+        if isinstance(s, ast.Assign) and any(isinstance(t, ast.Subscript) and _is_dunder_dict(t.value, me) for t in s.targets):
+            n_store += 1
+            ok_uuid = ok_val = False
+            for alt in flatten(repo, s.value, fr, s):
+                u = any(is_pc_uuid(lf.expr) and not lf.path for lf in alt)
+                v = False
+                for lf in alt:
+                    e = lf.expr
+                    if isinstance(e, ast.Call) and isinstance(e.func, ast.Name) and e.func.id == fparam and not lf.path:
+                        v = any(isinstance(x.expr, ast.arg) and x.expr.arg == pc for a in e.args for x in expand(a, fr, lf.at))
+                ok_uuid, ok_val = u, v
+                if not (u and v):
+                    break
+            chk.require(ok_uuid and ok_val, "R06b", s, "the hint is not stored together with parse_context.uuid of the context it was computed under "
+                        f"(stored: {short(s.value, 60)})", detail="hint stored with the uuid of its context")
+    chk.require(n_store >= 1, "R06b", wrapper, "the wrapper no longer stores the computed hint (cache anchor gone)", detail="store present")
+    # ParseContext.uuid: fresh per instance, bound in __init__ only
+    n_uuid = 0
+    for f in _methods(api.cls):
+        for s in walk_local(f):
+            for t in _store_targets(s):
+                if isinstance(t, ast.Attribute) and t.attr == "uuid" and isinstance(t.value, ast.Name) and t.value.id == "self":
+                    v = getattr(s, "value", None)
+                    fresh = isinstance(v, ast.Call) and call_name(v).split(".")[-1] in FRESH_ID_CALLS
+                    n_uuid += f is api.init and fresh
+                    chk.require(f is api.init and fresh, "R06b", s, f"ParseContext.uuid must be a fresh id bound in __init__ (found {short(s, 70)} in {f.name}): two contexts with equal "
+                                "uuids share the hints cached on grammar objects", detail=f"uuid bound in {f.name}")
+    chk.require(n_uuid == 1, "R06b", api.init, "ParseContext.__init__ does not bind self.uuid to a fresh id exactly once", detail="uuid created in __init__")
+    for c in ct.sites:
+        f = enclosing_function(c)
+        if not isinstance(f, FuncNode):
+            continue
+        fr2 = Frame(f)
+        for s in walk_local(f):
+            for t in _store_targets(s):
+                if isinstance(t, ast.Attribute) and t.attr == "uuid" and isinstance(t.value, ast.Name):
+                    if any(lf.expr is c for lf in expand(t.value, fr2, s)):
+                        chk.fail("R06b", s, "the uuid of a freshly constructed ParseContext is overwritten: hints cached under the other uuid become valid for this context",
+                                 detail=f"uuid overwritten in {qualname(f)}")
+    return wrapper
+
+
+# =====================================================================================
+# R06d  prune_options
+# =====================================================================================
+
+
+class _PruneModel:
+    """Symbolic walk of the option loop of ``prune_options`` (acyclic body)."""
+
+    def __init__(self, repo, f):
+        self.repo = repo
+        self.f = f
+        self.fr = Frame(f)
+        self.cfg = self.fr.cfg
+        self.loop: Optional[ast.For] = None
+        self.hint_call: Optional[ast.Call] = None
+        for n in walk_local(f):
+            if isinstance(n, ast.For):
+                for c in calls_in(n):
+                    if last_attr(c) == "simple" and isinstance(c.func, ast.Attribute):
+                        ls = expand(c.func.value, self.fr, self.cfg.stmt_of(c))
+                        if ls and all(isinstance(x.expr, _Opaque) and x.expr.kind == "for" and x.expr.stmt is n for x in ls):
+                            self.loop, self.hint_call = n, c
+        if self.loop is None:
+            raise AnalysisError("R06d: prune_options has no loop that asks each option for its simple() hint (anchor refactored)")
+        self.first_call: Optional[ast.Call] = None
+
+    # -- value components ------------------------------------------------------------------
+    def comp(self, e: ast.AST, at) -> Optional[Tuple[int, Optional[int]]]:
+        """(id of the producing call, tuple index) of a plain value, None when unknown."""
+        idx: Optional[int] = None
+        if isinstance(e, ast.Subscript) and isinstance(e.slice, ast.Constant) and isinstance(e.slice.value, int):
+            idx, e = e.slice.value, e.value
+        ls = expand(e, self.fr, at)
+        if len(ls) != 1 or not isinstance(ls[0].expr, ast.Call):
+            return None
+        lf = ls[0]
+        if lf.path:
+            if idx is not None or len(lf.path) != 1 or not isinstance(lf.path[0], int):
+                return None
+            idx = lf.path[0]
+        return id(lf.expr), idx
+
+    def is_hint(self, e, at) -> bool:
+        return self.comp(e, at) == (id(self.hint_call), None)
+
+    def is_loopvar(self, e, at) -> bool:
+        ls = expand(e, self.fr, at)
+        return bool(ls) and all(isinstance(x.expr, _Opaque) and x.expr.kind == "for" and x.expr.stmt is self.loop for x in ls)
+
+    # -- atoms -----------------------------------------------------------------------------
+    def classify(self, e: ast.AST, at) -> Optional[Tuple[str, bool]]:
+        """(kind, sign): truth of ``e`` == sign means <kind> holds.  kinds: none (hint is None), raw (first raw in hint raws), type (types intersect)."""
+        if isinstance(e, ast.Compare) and len(e.ops) == 1:
+            op, l, r = e.ops[0], e.left, e.comparators[0]
+            if isinstance(op, (ast.Is, ast.IsNot, ast.Eq, ast.NotEq)) and isinstance(r, ast.Constant) and r.value is None and self.is_hint(l, at):
+                return "none", isinstance(op, (ast.Is, ast.Eq))
+            if isinstance(op, (ast.In, ast.NotIn)):
+                cl, cr = self.comp(l, at), self.comp(r, at)
+                if cr == (id(self.hint_call), 0) and cl is not None and cl[1] == 0 and cl[0] != id(self.hint_call):
+                    if self.first_call is None or id(self.first_call) == cl[0]:
+                        self.first_call = next(x.expr for x in expand(l.value if isinstance(l, ast.Subscript) else l, self.fr, at))
+                        return "raw", isinstance(op, ast.In)
+            return None
+        if self.is_hint(e, at):
+            return "none", False
+        pair = None
+        sign = True
+        if isinstance(e, ast.Call) and isinstance(e.func, ast.Attribute) and e.func.attr in ("intersection", "isdisjoint") and len(e.args) == 1:
+            pair, sign = (e.func.value, e.args[0]), e.func.attr == "intersection"
+        elif isinstance(e, ast.BinOp) and isinstance(e.op, ast.BitAnd):
+            pair = (e.left, e.right)
+        if pair is not None:
+            cs = {self.comp(pair[0], at), self.comp(pair[1], at)}
+            if (id(self.hint_call), 1) in cs and len(cs) == 2:
+                other = next(c for c in cs if c != (id(self.hint_call), 1))
+                if other is not None and other[1] == 1 and (self.first_call is None or other[0] == id(self.first_call)):
+                    return "type", sign
+        return None
+
+    def const_value(self, e, flags) -> Optional[bool]:
+        if isinstance(e, ast.Constant) and isinstance(e.value, bool):
+            return e.value
+        if isinstance(e, ast.Name) and e.id in flags:
+            return flags[e.id]
+        if isinstance(e, ast.UnaryOp) and isinstance(e.op, ast.Not):
+            v = self.const_value(e.operand, flags)
+            return None if v is None else not v
+        if isinstance(e, ast.BoolOp):
+            vs = [self.const_value(v, flags) for v in e.values]
+            if isinstance(e.op, ast.And):
+                return False if any(v is False for v in vs) else (True if all(v is True for v in vs) else None)
+            return True if any(v is True for v in vs) else (False if all(v is False for v in vs) else None)
+        return None
+
+    def _containers(self, e, at) -> Set[tuple]:
+        out = set()
+        for n in ast.walk(e):
+            if isinstance(n, (ast.Name, ast.Subscript)):
+                c = self.comp(n, at)
+                if c is not None and c[1] is not None:
+                    out.add(c)
+        return out
+
+    def facts(self, e: ast.AST, truth: bool, flags, at) -> List[Tuple[str, bool]]:
+        """Known (kind, holds) facts when ``e`` evaluates to ``truth``."""
+        if isinstance(e, ast.UnaryOp) and isinstance(e.op, ast.Not):
+            return self.facts(e.operand, not truth, flags, at)
+        if isinstance(e, ast.BoolOp):
+            strong = (isinstance(e.op, ast.And) and truth) or (isinstance(e.op, ast.Or) and not truth)
+            if strong:
+                return [x for v in e.values for x in self.facts(v, truth, flags, at)]
+            # "and" known false / "or" known true: only one operand is responsible; drop the
+            # operands that are decided by the flags or that only guard emptiness of a container
+            # another operand tests against (an empty container fails that test as well)
+            rest = []
+            for v in e.values:
+                cv = self.const_value(v, flags)
+                if cv is not None and cv == (isinstance(e.op, ast.And)):
+                    continue
+                rest.append(v)
+            if isinstance(e.op, ast.And):
+                tested = [v for v in rest if self.classify(v, at) is not None or isinstance(v, (ast.Compare, ast.Call, ast.BinOp))]
+                guards = [v for v in rest if isinstance(v, (ast.Name, ast.Subscript)) and self.comp(v, at) is not None and self.comp(v, at)[1] is not None
+                          and any(self.comp(v, at) in self._containers(t, at) for t in tested if t is not v)]
+                rest = [v for v in rest if not any(v is g for g in guards)]
+            if len(rest) == 1:
+                return self.facts(rest[0], truth, flags, at)
+            return []
+        c = self.classify(e, at)
+        if c is None:
+            return []
+        kind, sign = c
+        return [(kind, truth == sign)]
+
+    # -- walk ------------------------------------------------------------------------------
+    def run(self, result_canon) -> List[dict]:
+        done: List[dict] = []
+
+        def is_keep(s) -> bool:
+            if not (isinstance(s, ast.Expr) and isinstance(s.value, ast.Call)):
+                return False
+            c = s.value
+            return (last_attr(c) == "append" and isinstance(c.func, ast.Attribute) and len(c.args) == 1
+                    and canon(c.func.value, self.fr, s) == result_canon and self.is_loopvar(c.args[0], s))
+
+        def block(stmts, st) -> List[dict]:
+            live = [st]
+            for s in stmts:
+                nxt: List[dict] = []
+                for cur in live:
+                    if isinstance(s, ast.If):
+                        cv = self.const_value(s.test, cur["flags"])
+                        branches = []
+                        if cv is not False:
+                            branches.append((s.body, True))
+                        if cv is not True:
+                            branches.append((s.orelse, False))
+                        for body, truth in branches:
+                            new = {"flags": dict(cur["flags"]), "facts": list(cur["facts"]), "kept": cur["kept"]}
+                            if cv is None:
+                                new["facts"] += self.facts(s.test, truth, cur["flags"], s)
+                            nxt += block(body, new)
+                    elif isinstance(s, (ast.Continue,)):
+                        done.append(cur)
+                    elif isinstance(s, (ast.For, ast.While, ast.Try, ast.With, ast.Return, ast.Break, ast.Raise, ast.Match)):
+                        raise AnalysisError(f"R06d: the option loop of prune_options contains a {type(s).__name__} statement; the rule models straight-line code and ifs only")
+                    else:
+                        if is_keep(s):
+                            cur = dict(cur, kept=True)
+                        elif isinstance(s, (ast.Assign, ast.AnnAssign, ast.AugAssign)):
+                            fl = dict(cur["flags"])
+                            for t in _store_targets(s):
+                                if isinstance(t, ast.Name):
+                                    v = getattr(s, "value", None)
+                                    if isinstance(s, (ast.Assign, ast.AnnAssign)) and isinstance(v, ast.Constant) and isinstance(v.value, bool):
+                                        fl[t.id] = v.value
+                                    else:
+                                        fl.pop(t.id, None)
+                            cur = dict(cur, flags=fl)
+                        nxt.append(cur)
+                live = nxt
+            return live
+
+        done += block(self.loop.body, {"flags": {}, "facts": [], "kept": False})
+        return done
+
+
+def r06d(chk, repo) -> None:
+    chk.rule("R06d", "prune_options drops an option only when its hint is not None and both the raw test and the type test against the first code token failed; "
+             "without such a token every option is kept; raw and types of that token come from one segment")
+    f = repo.fn(MALG, "prune_options")
+    pm = _PruneModel(repo, f)
+    fr, cfg = pm.fr, pm.cfg
+    params = _params(f)
+    # the loop runs over the options parameter
+    it = pm.loop.iter
+    if isinstance(it, ast.Call) and call_name(it) == "enumerate" and it.args:
+        it = it.args[0]
+    its = expand(it, fr, pm.loop)
+    opt_param = its[0].expr.arg if its and all(isinstance(x.expr, ast.arg) for x in its) and len({x.expr.arg for x in its}) == 1 else None
+    chk.require(opt_param is not None and opt_param == params[0], "R06d", pm.loop, "the pruning loop does not run over the options it was given: options outside the loop are dropped without any test",
+                detail="loop covers all given options")
+    # the returned list
+    rets = [r for r in walk_local(f) if isinstance(r, ast.Return)]
+    after = [r for r in rets if r.lineno > pm.loop.end_lineno and r.value is not None]
+    if not after:
+        raise AnalysisError("R06d: prune_options has no return after the option loop")
+    result_canon = canon(after[-1].value, fr, after[-1])
+    res_leaves = expand(after[-1].value, fr, after[-1])
+    chk.require(bool(res_leaves) and all(isinstance(x.expr, ast.List) and not x.expr.elts for x in res_leaves), "R06d", after[-1],
+                "the value returned after the loop is not the list the kept options were appended to", detail="result is the kept-options list")
+    for r in rets:
+        if r in after or r.value is None:
+            continue
+        v = r.value
+        inner = v.args[0] if isinstance(v, ast.Call) and call_name(v) in ("list", "tuple") and len(v.args) == 1 else (v.value if isinstance(v, ast.Subscript) and isinstance(v.slice, ast.Slice) and v.slice.lower is None and v.slice.upper is None and v.slice.step is None else v)
+        ls = expand(inner, fr, r) if isinstance(inner, ast.Name) else []
+        ok = bool(ls) and all(isinstance(x.expr, ast.arg) and x.expr.arg == params[0] and not x.path for x in ls)
+        chk.require(ok, "R06d", r, f"an early return of prune_options ({short(r, 60)}) does not hand back all options: without a first code token nothing can be ruled out "
+                    "(alternatives that match non-code or insert metas only would be lost)", detail="early return keeps every option")
+    paths = pm.run(result_canon)
+    chk.count("R06d.loop_paths", len(paths))
+    chk.floor("R06d.loop_paths", 3)
+    n_drop = 0
+    for p in paths:
+        if p["kept"]:
+            continue
+        n_drop += 1
+        facts = set(p["facts"])
+        for kind, label, why in (
+            ("none", "hint is not None", "an option without a hint (regex, Anything, sequences starting with metas) must always be tried"),
+            ("raw", "raw test failed", "an option whose hint contains the raw of the first code token must be tried"),
+            ("type", "type test failed", "an option whose hint contains a type of the first code token must be tried"),
+        ):
+            chk.require((kind, False) in facts, "R06d", pm.loop, f"prune_options can drop an option on a path where it is not established that the {label} "
+                        f"(known on that path: {sorted(facts)}): {why}", detail=f"dropped only if {label}")
+    chk.require(n_drop >= 1, "R06d", pm.loop, "no path of the loop drops an option (pruning anchor gone)", detail="drop path present")
+    chk.require(any(p["kept"] and ("none", True) in p["facts"] for p in paths), "R06d", pm.loop, "no path keeps an option whose hint is None", detail="hint None is kept")
+    # the first-token helper takes raw and types from the same segment
+    if pm.first_call is not None and isinstance(pm.first_call, ast.Call):
+        r = repo.resolve_name(module_of(f), call_name(pm.first_call))
+        if r and isinstance(r[1], FuncNode):
+            h = r[1]
+            hfr = Frame(h)
+            n_t = 0
+            for ret in walk_local(h):
+                if isinstance(ret, ast.Return) and isinstance(ret.value, ast.Tuple) and len(ret.value.elts) == 2:
+                    n_t += 1
+                    a, b = ret.value.elts
+                    ok = isinstance(a, ast.Attribute) and isinstance(b, ast.Attribute) and same_value((a.value, hfr, ret), (b.value, hfr, ret))
+                    chk.require(ok, "R06d", ret, f"{h.name} returns raw and types that are not attributes of one and the same segment ({short(ret, 70)}): "
+                                "the raw test and the type test would look at different tokens", detail="first token: raw and types of one segment")
+            chk.count("R06d.first_token_returns", n_t)
+            chk.floor("R06d.first_token_returns", 1)
+        else:
+            raise AnalysisError("R06d: the helper that yields the first code token is not a function of match_algorithms.py any more")
+    else:
+        raise AnalysisError("R06d: no raw membership test against the hint found in prune_options (anchor refactored)")
+
+
+# =====================================================================================
+# R06e  candidate order in next_match
+# =====================================================================================
+
+
+def r06e(chk, repo) -> None:
+    chk.rule("R06e", "next_match tries the candidate matchers of a position in the order of its matchers argument: the index list collected from the raw map and "
+             "from a set of types is sorted (ascending) before the matching loop")
+    f = repo.fn(MALG, "next_match")
+    fr = Frame(f)
+    cfg = fr.cfg
+    params = _params(f)
+    n_loops = 0
+    for loop in (n for n in walk_local(f) if isinstance(n, ast.For)):
+        # the loop that runs .match on matchers[<loop var>]
+        mcalls = [c for c in calls_in(loop) if last_attr(c) == "match" and isinstance(c.func, ast.Attribute) and len(c.args) >= 2]
+        hit = None
+        for c in mcalls:
+            for lf in expand(c.func.value, fr, cfg.stmt_of(c)):
+                e = lf.expr
+                if isinstance(e, ast.Subscript) and not lf.path:
+                    base = expand(e.value, fr, lf.at)
+                    idx = expand(e.slice, fr, lf.at)
+                    if base and all(isinstance(b.expr, ast.arg) and b.expr.arg in params for b in base) and idx and all(isinstance(i.expr, _Opaque) and i.expr.stmt is loop for i in idx):
+                        hit = c
+        if hit is None or any(isinstance(p, ast.For) and p is not loop and _contains(loop, p) and _contains(p, hit) for p in walk_local(loop)):
+            continue
+        n_loops += 1
+        it = loop.iter
+        if isinstance(it, ast.Call) and call_name(it) == "sorted" and it.args:
+            rev = next((k.value for k in it.keywords if k.arg == "reverse"), None)
+            key = next((k.value for k in it.keywords if k.arg == "key"), None)
+            chk.require(key is None and (rev is None or (isinstance(rev, ast.Constant) and not rev.value)), "R06e", loop,
+                        "candidate matcher indices are not tried in ascending order of the matchers argument", detail="candidates tried in matcher order")
+            continue
+        lst_canon = canon(it, fr, loop)
+        sorts, muts = [], []
+        for s in walk_local(f):
+            if isinstance(s, ast.Expr) and isinstance(s.value, ast.Call) and isinstance(s.value.func, ast.Attribute) and canon(s.value.func.value, fr, s) == lst_canon:
+                a = s.value.func.attr
+                if a == "sort":
+                    rev = next((k.value for k in s.value.keywords if k.arg == "reverse"), None)
+                    key = next((k.value for k in s.value.keywords if k.arg == "key"), None)
+                    if key is None and (rev is None or (isinstance(rev, ast.Constant) and not rev.value)):
+                        sorts.append(s)
+                    else:
+                        muts.append(s)
+                elif a in SEQ_MUTATORS:
+                    muts.append(s)
+            elif isinstance(s, ast.AugAssign) and canon(s.target, fr, s) == lst_canon:
+                muts.append(s)
+        chk.count("R06e.candidate_list_mutations", len(muts))
+        sort_ids = {id(s) for s in sorts}
+        unsorted_path = [m_ for m_ in muts if cfg.paths_avoiding(m_, loop, lambda n: id(n) in sort_ids)]
+        chk.require(bool(sorts) and not unsorted_path, "R06e", loop,
+                    "the list of candidate matcher indices reaches the matching loop unsorted"
+                    + (f" (after {short(unsorted_path[0], 60)})" if unsorted_path else "") +
+                    ": type hits come from iterating a set, whose order depends on the string hash seed of the process, and raw hits are listed before type hits, so which of "
+                    "several matching matchers wins would differ between runs and from the documented 'first in the iterable' priority", detail="candidates sorted before the matching loop")
+    chk.count("R06e.matching_loops", n_loops)
+    chk.floor("R06e.matching_loops", 1)
+    chk.floor("R06e.candidate_list_mutations", 1)
+
+
+def _contains(outer: ast.AST, inner: ast.AST) -> bool:
+    p = inner
+    while p is not None:
+        if p is outer:
+            return True
+        p = getattr(p, "_parent", None)
+    return False
+
+
+# =====================================================================================
+# R06f  cache_key discipline
+# =====================================================================================
+
+
+def _self_fields_read(repo, m, c: ast.ClassDef, meth_name: str, _seen=None) -> Set[str]:
+    """Attributes of self/cls read by ``meth_name`` of class ``c`` (following self.<method>() calls)."""
+    _seen = _seen if _seen is not None else set()
+    r = repo.lookup_method(m, c, meth_name)
+    if not r or id(r[1]) in _seen:
+        return set()
+    _seen.add(id(r[1]))
+    f = r[1]
+    me = (_params(f) or ["self"])[0]
+    out: Set[str] = set()
+    for n in walk_local(f):
+        if isinstance(n, ast.Attribute) and isinstance(n.value, ast.Name) and n.value.id == me and isinstance(n.ctx, ast.Load):
+            par = getattr(n, "_parent", None)
+            if isinstance(par, ast.Call) and par.func is n:
+                out |= _self_fields_read(repo, m, c, n.attr, _seen)
+            elif not repo.lookup_method(m, c, n.attr):
+                out.add(n.attr)
+    return out
+
+
+def r06f(chk, repo) -> None:
+    chk.rule("R06f", "cache_key() of every matcher class returns a slot that is assigned only at construction from a fresh-unique source (uuid4 / get_next_id), "
+             "or an expression that covers every field the class' match reads")
+    slot_stores: Dict[str, List[Tuple[object, ast.AST, ast.AST]]] = {}
+    for m in repo.iter_modules(PARSER_DIR):
+        for q, f in m.functions():
+            for s in walk_local(f):
+                for t in _store_targets(s):
+                    v = getattr(s, "value", None)
+                    if isinstance(t, ast.Attribute) and isinstance(t.value, ast.Name) and t.value.id in ("self", "cls"):
+                        slot_stores.setdefault(t.attr, []).append((m, f, s))
+                    elif isinstance(t, ast.Subscript) and isinstance(t.slice, ast.Constant) and isinstance(t.slice.value, str) and isinstance(t.value, ast.Name) and "dict" in t.value.id:
+                        slot_stores.setdefault(t.slice.value, []).append((m, f, s))
+    for m in repo.iter_modules(PARSER_DIR):
+        for q, c in m.classes():
+            meth = next((x for x in _methods(c) if x.name == "cache_key"), None)
+            if meth is None:
+                continue
+            if any(isinstance(s, ast.Raise) for s in meth.body) or any("abstractmethod" in d for d in _decorators(meth)):
+                continue  # abstract declaration (Matchable)
+            chk.count("R06f.cache_key_methods")
+            me = (_params(meth) or ["self"])[0]
+            rets = [r for r in walk_local(meth) if isinstance(r, ast.Return) and r.value is not None]
+            for r in rets:
+                v = r.value
+                if isinstance(v, ast.Attribute) and isinstance(v.value, ast.Name) and v.value.id == me:
+                    stores = slot_stores.get(v.attr, [])
+                    chk.require(bool(stores), "R06f", r, f"{c.name}.cache_key returns self.{v.attr}, which is never assigned in core/parser", detail=f"{c.name}: key slot assigned")
+                    for sm, sf, s in stores:
+                        val = getattr(s, "value", None)
+                        fresh = val is not None and any(isinstance(x, ast.Call) and call_name(x).split(".")[-1] in FRESH_ID_CALLS for x in cone(cfg_of(sf), val, s))
+                        ctor = sf.name in ("__init__", "__new__")
+                        chk.require(fresh and ctor, "R06f", s, f"the matcher key slot {v.attr} is assigned {short(s, 70)} in {qualname(sf)}: a key that is not a fresh unique value bound at "
+                                    "construction can coincide for two matchers with different behaviour, and the parse cache then replays one matcher's result for the other",
+                                    detail=f"{v.attr} slot fresh-unique at construction in {qualname(sf)}")
+                else:
+                    # value key: must cover what match reads (this class and subclasses that inherit the key)
+                    covered = {a.attr for a in ast.walk(v) if isinstance(a, ast.Attribute) and isinstance(a.value, ast.Name) and a.value.id == me}
+                    fam = [(m, c)] + [(sm, sc) for sm, sc in repo.subclasses_of(c.name) if sc is not c and repo.lookup_method(sm, sc, "cache_key")[1] is meth]
+                    for fm, fc in fam:
+                        need = _self_fields_read(repo, fm, fc, "match")
+                        chk.require(need <= covered, "R06f", r, f"{fc.name}.match reads {sorted(need - covered)} but {c.name}.cache_key ({short(v, 50)}) does not depend on them: "
+                                    "two instances that match differently share one parse-cache entry", detail=f"{fc.name}: value key covers the fields match reads")
+    chk.floor("R06f.cache_key_methods", 4)
+
+
+# =====================================================================================
+# RS-state  process-lifetime mutable state around matching
+# =====================================================================================
+
+# (module, owning class or "", name) -> why it cannot make a parse depend on history.  One symbol per entry.
+REVIEWED_STATE = {
+    (LEXER, "BlockTracker", "_stack"): "LIFO of template block ids of the lex call in progress; enter/exit are paired per file; only the top is read",
+    (LEXER, "BlockTracker", "_map"): "source slice -> opaque block uuid; only ever compared for identity inside one file's segments, never read by matching",
+    (RUST, "", "_PARSE_PROFILE"): "opt-in timing output of the Rust parser path, write-only for parsing",
+    (IDENT, "", "_counter"): "monotonic id source; ids are opaque identity keys (segment uuid, segment-class cache key), never ordered or parsed",
+}
+REVIEWED_GLOBALS = {
+    (RUST, "_PROFILE_ENABLED"): "profiling switch of the Rust parser path; does not change what is parsed",
+    (RUST, "_NATIVE_AST_ENABLED"): "selects the Rust AST builder, explicit opt-in API; absent from the Python parser",
+}
+MUTABLE_CTORS = ("list", "dict", "set", "defaultdict", "OrderedDict", "Counter", "deque", "count", "WeakValueDictionary", "WeakKeyDictionary", "bytearray")
+# modules whose objects are the matchers themselves (grammar objects live as long as the dialect)
+MATCHER_MODULES = (MALG, PARSERS, PARSER_DIR + "matchable.py", PARSER_DIR + "grammar/")
+SEGMENT_MATCH_METHODS = ("match", "simple", "cache_key", "is_optional", "class_is_type")
+FRESH_OBJECT_CALLS = ("copy.copy", "copy.deepcopy", "copy", "deepcopy", "object.__new__", "super().__new__", "type.__new__")
+
+
+def _mutable_value(v) -> bool:
+    if isinstance(v, (ast.List, ast.Dict, ast.Set, ast.ListComp, ast.DictComp, ast.SetComp)):
+        return True
+    return isinstance(v, ast.Call) and call_name(v).split(".")[-1] in MUTABLE_CTORS
+
+
+def _scope_modules(repo):
+    for m in repo.iter_modules(PARSER_DIR):
+        yield m
+    yield repo.mod(IDENT)
+
+
+def _inventory(repo):
+    """(module, class name or '', name, node) of module-/class-level containers; global statements."""
+    conts, globs = [], []
+    for m in _scope_modules(repo):
+        def scan(body, owner):
+            for s in body:
+                if isinstance(s, (ast.Assign, ast.AnnAssign)) and getattr(s, "value", None) is not None and _mutable_value(s.value):
+                    for t in _store_targets(s):
+                        if isinstance(t, ast.Name) and not (t.id.startswith("__") and t.id.endswith("__")):
+                            conts.append((m, owner, t.id, s))
+                elif isinstance(s, ast.ClassDef):
+                    scan(s.body, s.name)
+                elif isinstance(s, (ast.If, ast.Try)):
+                    scan(s.body, owner)
+                    scan(getattr(s, "orelse", []), owner)
+        scan(m.tree.body, "")
+        for n in ast.walk(m.tree):
+            if isinstance(n, ast.Global):
+                for nm in n.names:
+                    globs.append((m, nm, n))
+    return conts, globs
+
+
+def _mutation_sites(repo, m, owner: str, name: str) -> List[ast.AST]:
+    """Statements / calls that change the container in place (or rebind it through ``global``)."""
+    out: List[ast.AST] = []
+    MUT = DICT_MUTATORS + SEQ_MUTATORS
+
+    def refers(e) -> bool:
+        if owner:
+            return isinstance(e, ast.Attribute) and e.attr == name and isinstance(e.value, ast.Name) and (e.value.id in ("self", "cls") or e.value.id == owner)
+        return isinstance(e, ast.Name) and e.id == name
+
+    mods = [m]
+    if not owner:
+        mods += [x for x in repo.modules.values() if x is not m and x.imports.get(name, "").endswith(f"{m.dotted}.{name}")]
+    else:
+        mods = [x for x in repo.iter_modules(PARSER_DIR)]
+    for mm in mods:
+        if name not in mm.text:
+            continue
+        for n in ast.walk(mm.tree):
+            if owner and mm is not m and enclosing_class(n) is None:
+                continue
+            if owner:
+                c = enclosing_class(n)
+                if c is not None and c.name != owner and not any(cc.name == owner for _, cc in repo.mro(mm, c)) and not (isinstance(n, ast.Attribute) and isinstance(n.value, ast.Name) and n.value.id == owner):
+                    continue
+            if isinstance(n, ast.Call):
+                if isinstance(n.func, ast.Attribute) and n.func.attr in MUT and refers(n.func.value):
+                    out.append(n)
+                elif call_name(n) == "next" and n.args and refers(n.args[0]):
+                    out.append(n)
+            elif isinstance(n, (ast.Assign, ast.AugAssign, ast.Delete, ast.AnnAssign)):
+                for t in _store_targets(n):
+                    if isinstance(t, ast.Subscript) and refers(t.value):
+                        out.append(n)
+                    elif isinstance(n, ast.AugAssign) and refers(t):
+                        out.append(n)
+                    elif not owner and isinstance(t, ast.Name) and t.id == name and enclosing_function(n) is not None:
+                        f = enclosing_function(n)
+                        if any(isinstance(g, ast.Global) and name in g.names for g in walk_local(f)):
+                            out.append(n)
+    if owner:
+        # an instance attribute of the same name assigned in a method shadows the class-level container
+        c = m.defs.get(owner)
+        if isinstance(c, ast.ClassDef):
+            for f in _methods(c):
+                for s in walk_local(f):
+                    if any(isinstance(t, ast.Attribute) and t.attr == name and isinstance(t.value, ast.Name) and t.value.id == "self" for t in _store_targets(s) if isinstance(s, (ast.Assign, ast.AnnAssign))):
+                        return []
+    return out
+
+
+def rs_state(chk, repo, hint_wrapper: Optional[ast.AST]) -> None:
+    chk.rule("RS-state", "module-/class-level containers and global statements of core/parser (+ helpers/identity) are constant tables or reviewed entries; matcher objects "
+             "(grammars, parsers, segment classes in their match/simple/cache_key methods) are written only at construction; no memoiser on functions of the matching modules")
+    conts, globs = _inventory(repo)
+    seen_keys = set()
+    for m, owner, name, node in conts:
+        chk.count("RS-state.containers")
+        key = (m.relpath, owner, name)
+        seen_keys.add(key)
+        sites = _mutation_sites(repo, m, owner, name)
+        label = f"{owner + '.' if owner else ''}{name}"
+        if not sites:
+            chk.count("RS-state.constant_tables")
+            chk.ok("RS-state", f"{m.relpath}::{label}", "constant table")
+            continue
+        chk.count("RS-state.mutated_containers")
+        if key in REVIEWED_STATE:
+            chk.ok("RS-state", f"{m.relpath}::{label}", "reviewed mutable: " + REVIEWED_STATE[key])
+            chk.sample({"rule": "RS-state", "container": f"{m.relpath}::{label}", "mutation_sites": len(sites), "reviewed": REVIEWED_STATE[key]})
+            continue
+        s0 = sites[0]
+        chk.fail("RS-state", node, f"{label} in {m.relpath} is a process-lifetime container that is mutated ({len(sites)} site(s), e.g. {short(enclosing_stmt(s0), 70)} in "
+                 f"{qualname(enclosing_function(s0)) if enclosing_function(s0) is not None else '<module>'}) and is not in the reviewed table: what it holds survives from one parse to the next",
+                 detail=f"shared mutable container {label}", construct=f"{m.relpath}::{label}")
+    for key in REVIEWED_STATE:
+        if key not in seen_keys:
+            chk.note(f"RS-state: reviewed entry {key} no longer exists (stale table entry).")
+    for m, name, node in globs:
+        chk.count("RS-state.global_statements")
+        f = enclosing_function(node)
+        chk.require((m.relpath, name) in REVIEWED_GLOBALS, "RS-state", node, f"`global {name}` in {m.relpath}::{qualname(f) if f is not None else '?'} rebinds module state at run time and is not "
+                    "in the reviewed table", detail=f"global {name}", construct=f"{m.relpath}::{name}")
+    chk.floor("RS-state.containers", 6)
+
+    # ---- matcher objects are written only at construction ----------------------------------
+    def in_matcher_modules(rel: str) -> bool:
+        return any(rel == x or (x.endswith("/") and rel.startswith(x)) for x in MATCHER_MODULES)
+
+    for m in repo.iter_modules(PARSER_DIR):
+        seg_mod = m.relpath.startswith(PARSER_DIR + "segments/")
+        if not (in_matcher_modules(m.relpath) or seg_mod):
+            continue
+        for q, f in m.functions():
+            if seg_mod and f.name not in SEGMENT_MATCH_METHODS:
+                continue
+            chk.count("RS-state.matcher_functions")
+            memo = _is_memoised(f)
+            chk.require(memo is None, "RS-state", f, f"{q} in {m.relpath} is memoised with {memo}: the memo lives as long as the grammar object / the process, i.e. across parses and dialects",
+                        detail=f"memoiser on {q}")
+            if f is hint_wrapper:
+                continue  # the per-context hint slot, decided by R06b
+            fr = Frame(f)
+            first = (_params(f) or [None])[0]
+            ctor = f.name in ("__init__", "__new__", "__post_init__", "__init_subclass__")
+            for s in walk_local(f):
+                writes = []
+                if isinstance(s, (ast.Assign, ast.AnnAssign, ast.AugAssign, ast.Delete)):
+                    writes = [t for t in _store_targets(s) if isinstance(t, (ast.Attribute, ast.Subscript))]
+                elif isinstance(s, ast.Expr) and isinstance(s.value, ast.Call) and isinstance(s.value.func, ast.Attribute) and s.value.func.attr in DICT_MUTATORS + SEQ_MUTATORS:
+                    writes = [s.value.func.value] if isinstance(s.value.func.value, (ast.Attribute, ast.Subscript)) else []
+                elif isinstance(s, ast.Expr) and isinstance(s.value, ast.Call) and call_name(s.value) in ("setattr", "object.__setattr__") and s.value.args:
+                    writes = [ast.Attribute(value=s.value.args[0], attr="?", ctx=ast.Store())]
+                for t in writes:
+                    root = t
+                    has_attr = False
+                    while isinstance(root, (ast.Attribute, ast.Subscript)):
+                        has_attr = has_attr or isinstance(root, ast.Attribute)
+                        root = root.value
+                    if not has_attr or not isinstance(root, ast.Name):
+                        continue
+                    chk.count("RS-state.object_writes")
+                    if ctor and root.id == first:
+                        chk.ok("RS-state", f"{m.relpath}::{q}", f"construction: {short(t, 40)}")
+                        continue
+                    ls = expand(root, fr, s)
+                    fresh = bool(ls) and all(isinstance(x.expr, ast.Call) and (call_name(x.expr) in FRESH_OBJECT_CALLS or _resolves_to_class(repo, x.expr)) for x in ls)
+                    chk.require(fresh, "RS-state", s, f"{q} writes {short(t, 50)} on an object it did not create: grammars, parsers and segment classes are shared by every parse "
+                                "(and every dialect that inherits them), so state written while matching or computing a hint leaks into later parses",
+                                detail=f"{q}: write to {short(t, 50)}")
+    chk.floor("RS-state.matcher_functions", 40)
+    chk.floor("RS-state.object_writes", 20)
+
+
+def _resolves_to_class(repo, call: ast.Call) -> bool:
+    n = call_name(call)
+    if not n or "." in n or n in ("cls",):
+        return n == "cls"
+    r = repo.resolve_name(module_of(call), n)
+    return bool(r) and isinstance(r[1], ast.ClassDef)
+
+
+# =====================================================================================
+# entry point
+# =====================================================================================
+
+
+def run(chk) -> None:
+    repo = chk.repo
+    chk.rule("R06a", "the parse cache is a fresh dict per ParseContext, touched only by its look-up/store methods; its key contains, as whole components, the position and a "
+             "discriminator of segments[idx], len(segments) and <matcher>.cache_key() of the match whose result is stored; a ParseContext is constructed per parse and never "
+             "stored in an attribute, global or memoised function")
+    api = CacheApi(repo)
+    r06a_cache_attr(chk, repo, api)
+    r06a_call_sites(chk, repo, api)
+    ct = r06a_construction(chk, repo, api)
+    wrapper = r06b(chk, repo, api, ct)
+    r06d(chk, repo)
+    r06e(chk, repo)
+    r06f(chk, repo)
+    rs_state(chk, repo, wrapper)
+    in_selftest = getattr(chk, "in_selftest", False)
+    g = load_grammar(repo, cache=not in_selftest, rebuild=(chk.tier == "thorough" and not in_selftest))
+    chk.note(f"grammar front-end: {len(g)} dialects, {g.n_nodes} nodes ({'cache' if g.from_cache else 'rebuilt'}); hints are the values of the declared simple() methods, "
+             "FIRST/EPS are computed here from the serialised graph.")
+    r06c(chk, repo, g)
+    chk.assumptions = [
+        "CPython ast gives the program's syntax faithfully; the FIRST/EPS model of sa/grammar_first.py mirrors what match() of each matcher kind does on a stream of raw lexer tokens",
+        "the reviewed tables REVIEWED_STATE / REVIEWED_GLOBALS in sa/rules/c06.py were read by hand",
+        "the grammar graph and the hint values come from importing the dialect modules of the analysed tree in a sub-process (no SQL is lexed or parsed)",
+    ]
+
+
+# =====================================================================================
+# self-test variants
+# =====================================================================================
+
+from ..selftest import Variant  # noqa: E402
+
+ANSI = "src/sqlfluff/dialects/dialect_ansi.py"
+PARSER_PY = PARSER_DIR + "parser.py"
+
+VARIANTS = [
+    # ---- behaviour-preserving edits: the check must stay quiet ---------------------------------
+    Variant(
+        "quiet-token-through-a-local", MALG,
+        "    loc_key = (\n        segments[idx].raw,\n",
+        "    _tok = segments[idx]\n    loc_key = (\n        _tok.raw,\n",
+        "QUIET", None, "the keyed token is held in a local first",
+    ),
+    Variant(
+        "quiet-matcher-through-a-local", MALG,
+        "        matcher_key = matcher.cache_key()\n",
+        "        _m = matcher\n        matcher_key = _m.cache_key()\n",
+        "QUIET", None, "matcher passed through a second local",
+    ),
+    Variant(
+        "quiet-lookup-key-in-a-local", CTX,
+        "        return self._parse_cache.get((loc_key, matcher_key))\n",
+        "        key = (loc_key, matcher_key)\n        return self._parse_cache.get(key)\n",
+        "QUIET", None, "look-up key built in a local",
+    ),
+    Variant(
+        "quiet-hint-cache-early-raise", GBASE,
+        "            if cache_tuple[0] == parse_context.uuid:\n                # If so return it.\n                return cache_tuple[1]\n",
+        "            if cache_tuple[0] != parse_context.uuid:\n                raise KeyError(cache_key)\n            return cache_tuple[1]\n",
+        "QUIET", None, "uuid test inverted into an early raise inside the same try/except KeyError",
+    ),
+    Variant(
+        "quiet-prune-single-condition", MALG,
+        "        matched = False\n\n        # We want to know if the first meaningful element of the str_buff\n        # matches the option, based on either simple _raw_ matching or\n        # simple _type_ matching.\n\n"
+        "        # Match Raws\n        if simple_raws and first_raw in simple_raws:\n            # If we get here, it's matched the FIRST element of the string buffer.\n            available_options.append(opt)\n            matched = True\n\n"
+        "        # Match Types\n        if simple_types and not matched and first_types.intersection(simple_types):\n            # If we get here, it's matched the FIRST element of the string buffer.\n            available_options.append(opt)\n            matched = True\n\n"
+        "        if not matched:\n            # Ditch this option, the simple match has failed\n            prune_buff.append(opt)\n            continue\n",
+        "        if first_raw in simple_raws or first_types.intersection(simple_types):\n            available_options.append(opt)\n        else:\n            prune_buff.append(opt)\n",
+        "QUIET", None, "flag variable replaced by one or-condition",
+    ),
+    Variant(
+        "quiet-next-match-sorted-iteration", MALG,
+        "        _matcher_idxs.sort()\n        for _matcher_idx in _matcher_idxs:\n",
+        "        for _matcher_idx in sorted(_matcher_idxs):\n",
+        "QUIET", None, "in-place sort replaced by sorted() in the loop header",
+    ),
+    # ---- breaking edits ------------------------------------------------------------------------
+    Variant(
+        "cache-key-drops-length", MALG,
+        "        max_idx,\n    )\n", "    )\n",
+        "R06a", "visible length", "matches made before the tail was trimmed are replayed afterwards",
+    ),
+    Variant(
+        "cache-key-drops-position", MALG,
+        "        _cache_position.working_loc,\n", "",
+        "R06a", "token position", "same raw/type/length at another place hits the entry",
+    ),
+    Variant(
+        "cache-key-matcher-by-class-name", MALG,
+        "        matcher_key = matcher.cache_key()\n", "        matcher_key = type(matcher).__name__\n",
+        "R06a", "matcher key", "all Sequences share one entry per position",
+    ),
+    Variant(
+        "cache-kept-on-the-dialect", CTX,
+        "        self._parse_cache: dict[tuple[Any, ...], \"MatchResult\"] = {}\n",
+        "        self._parse_cache: dict[tuple[Any, ...], \"MatchResult\"] = dialect.__dict__.setdefault(\n            \"_parse_cache\", {}\n        )\n",
+        "R06a", "_parse_cache bound", "match cache shared by every file parsed with the dialect",
+    ),
+    Variant(
+        "parser-keeps-one-context", PARSER_PY,
+        "        ctx = ParseContext.from_config(config=self.config)\n",
+        "        if not hasattr(self, \"_ctx\"):\n            self._ctx = ParseContext.from_config(config=self.config)\n        ctx = self._ctx\n",
+        "R06a", "Parser.parse", "a Parser reused for several files replays cached matches",
+    ),
+    Variant(
+        "hint-cache-ignores-uuid", GBASE,
+        "            if cache_tuple[0] == parse_context.uuid:\n                # If so return it.\n                return cache_tuple[1]\n",
+        "            return cache_tuple[1]\n",
+        "R06b", "uuid equality", "hints of the dialect parsed first are used for every later dialect",
+    ),
+    Variant(
+        "context-uuid-per-dialect-name", CTX,
+        "        self.uuid = uuid.uuid4()\n", "        self.uuid = uuid.uuid5(uuid.NAMESPACE_OID, dialect.name)\n",
+        "R06b", "uuid bound", "contexts of differently configured dialect objects with one name share hints",
+    ),
+    Variant(
+        "sequence-hint-stops-at-first-element", SEQ,
+        "            if not opt.is_optional():\n", "            if True:\n",
+        "R06c", None, "Sequence.simple ignores that a leading optional element can be skipped",
+    ),
+    Variant(
+        "sequence-hint-skips-metas", SEQ,
+        "        for opt in self._elements:\n            simple = opt.simple(parse_context=parse_context, crumbs=crumbs)\n",
+        "        for opt in self._elements:\n            if getattr(opt, \"is_meta\", False):\n                continue\n            simple = opt.simple(parse_context=parse_context, crumbs=crumbs)\n",
+        "R06c", "EPS", "sequences that can match with metas only get a hint and are pruned",
+    ),
+    Variant(
+        "dialect-uses-start-bracket-override", ANSI,
+        "        bracket_type=\"square\",\n        parse_mode=ParseMode.GREEDY,\n    )\n\n\nansi_dialect.add(\n    # This is a hook point",
+        "        start_bracket=Ref(\"StartSquareBracketSegment\"),\n        end_bracket=Ref(\"EndSquareBracketSegment\"),\n        parse_mode=ParseMode.GREEDY,\n    )\n\n\nansi_dialect.add(\n    # This is a hook point",
+        "R06c", "ArrayAccessorSegment", "Bracketed.simple looks at bracket_type only; the override is matched but not hinted",
+    ),
+    Variant(
+        "prune-drops-on-raw-mismatch-before-type-test", MALG,
+        "        if simple_raws and first_raw in simple_raws:\n",
+        "        if simple_raws and first_raw not in simple_raws:\n            prune_buff.append(opt)\n            continue\n\n        if simple_raws and first_raw in simple_raws:\n",
+        "R06d", "type test failed", "an option hinted by raw and by type is lost when only its type matches",
+    ),
+    Variant(
+        "prune-drops-hintless-options", MALG,
+        "            available_options.append(opt)\n            continue\n\n        # Otherwise we have a simple option",
+        "            continue\n\n        # Otherwise we have a simple option",
+        "R06d", "hint is not None", "regex parsers and meta-led sequences are never tried",
+    ),
+    Variant(
+        "prune-returns-nothing-without-token", MALG,
+        "        return list(options)\n", "        return []\n",
+        "R06d", "early return", "nothing can match at the end of the tokens any more",
+    ),
+    Variant(
+        "next-match-candidates-unsorted", MALG,
+        "        _matcher_idxs.sort()\n        for _matcher_idx in _matcher_idxs:\n", "        for _matcher_idx in _matcher_idxs:\n",
+        "R06e", "next_match", "candidate order follows set iteration, i.e. the hash seed",
+    ),
+    Variant(
+        "parser-key-from-class-names", PARSERS,
+        "        self._cache_key = uuid4().hex\n", "        self._cache_key = f\"{type(self).__name__}:{raw_class.__name__}\"\n",
+        "R06f", "_cache_key", "StringParser('SELECT') and StringParser('FROM') share cache entries",
+    ),
+    Variant(
+        "module-level-memo-in-match-algorithms", MALG,
+        "def skip_start_index_forward_to_code(\n",
+        "_FIRST_CODE_MEMO: dict = {}\n\n\ndef _remember(key, value):\n    _FIRST_CODE_MEMO[key] = value\n    return value\n\n\ndef skip_start_index_forward_to_code(\n",
+        "RS-state", "_FIRST_CODE_MEMO", "a second, process-wide cache next to the per-parse one",
+    ),
+    Variant(
+        "bracketed-remembers-brackets-on-self", SEQ,
+        "        return start_bracket, end_bracket, persists\n",
+        "        self._brackets = (start_bracket, end_bracket, persists)\n        return start_bracket, end_bracket, persists\n",
+        "RS-state", "get_bracket_from_dialect", "grammar objects are shared by dialects with different bracket sets",
+    ),
+]
